@@ -38,6 +38,8 @@ func runC18(c *Ctx) {
 	c18AcceptorAddsItself(c)
 	c.Rule("C18.O17", "E1,E4", "a connection published behind Stop's sweep closes itself: Stop sets Engine.stopping under Engine.mux in the critical section that takes the tables, and addConn reads it under the same mutex after the table store and closes on its true edge", 2)
 	c18PublishedBehindTheSweep(c)
+	c.Rule("C18.O18", "E4", "nbhttp's accept goroutine (counted in the WaitGroup Stop waits for) leaves its loop when the listener is closed, whatever the shutdown flag says, and closes a connection it accepted while shutting down", 2)
+	c18AcceptLoopLeaves(c)
 	c.Rule("C18.O7", "E4", "the blocking readers' deferred clean-up removes the connection from the tracked set (delete(engine.conns, key) under Engine.mux), reports the close and releases the load slot on every path: Shutdown waits for the set to drain; it closes the connection it was reading unless that was transferred", 4)
 	c.Rule("C18.O8", "E4", "every torn-down connection reaches the close notification that releases the connection WaitGroup (same rule as C03.O9): Stop waits on it", 1)
 	c.Rule("C18.O9", "E5", "the listener mux's close channel is created once, in its constructor: the channel listeners copy it when they are made, so a later re-assignment leaves them waiting on a channel nobody closes", 1)
